@@ -321,6 +321,147 @@ func TestVerifC02Exhaustive(t *testing.T) {
 	h.Close("exhaustive enumeration of every sibling set with 1-3 siblings over weight {0,1,2} x request {0,2,5} x min {0,1,3} x lend, totals 0..9; non-trivial = at least 2 siblings")
 }
 
+// ---- min-quota scaling: ScaleMinQuotaManager.update / remove / getScaledMinQuota ----
+
+func TestVerifC02ScaleMin(t *testing.T) {
+	h := vOpen("C02")
+	if h == nil {
+		t.Skip("VERIF_OUT not set")
+	}
+	n := h.N(1500, 40000)
+	for idx := 0; idx < n; idx++ {
+		r := h.Begin(idx)
+		if r == nil {
+			continue
+		}
+		res := v1.ResourceMemory
+		if r.Bool() {
+			res = v1.ResourceCPU
+		}
+		mk := func(v int64) v1.ResourceList { return v1.ResourceList{res: createQuantity(v, res)} }
+		scale := r.Intn(4)
+		sm := NewScaleMinQuotaManager()
+		type child struct {
+			min    int64
+			enable bool
+		}
+		live := map[int]child{}
+		nops := r.Range(3, 14)
+		gets := 0
+		for o := 0; o < nops; o++ {
+			c := r.Range(1, 5)
+			switch k := r.Intn(10); {
+			case k < 5:
+				min := c02Amount(r, scale)
+				en := r.Chance(3, 4)
+				sm.update("p", fmt.Sprintf("q%d", c), mk(min), en)
+				live[c] = child{min, en}
+				h.Op("sm upd %d %d %d", c, min, vB(en))
+			case k < 6:
+				sm.remove("p", fmt.Sprintf("q%d", c))
+				delete(live, c)
+				h.Op("sm rem %d", c)
+			default:
+				var sumE, sumD int64
+				for _, ch := range live {
+					if ch.enable {
+						sumE += ch.min
+					} else {
+						sumD += ch.min
+					}
+				}
+				var total int64
+				switch r.Intn(5) {
+				case 0:
+					total = sumE + sumD + c02Amount(r, scale) // fits
+				case 1:
+					total = r.Int63n(sumD + 1) // not even the non-scalable minimums fit
+				case 2:
+					total = sumE + sumD // exactly fits
+				default:
+					total = sumD + r.Int63n(sumE+1) // scaling zone
+				}
+				ok, out := sm.getScaledMinQuota(mk(total), "p", fmt.Sprintf("q%d", c))
+				e := sm.enableScaleSubsSumMinQuotaMap["p"][res]
+				d := sm.disableScaleSubsSumMinQuotaMap["p"][res]
+				h.Op("sm get %d %d", total, c)
+				got := int64(-1)
+				if !ok {
+					h.Obs("scaled no sums %d %d", getQuantityValue(e, res), getQuantityValue(d, res))
+				} else {
+					q := out[res]
+					got = getQuantityValue(q, res)
+					h.Obs("scaled %d sums %d %d", got, getQuantityValue(e, res), getQuantityValue(d, res))
+				}
+				gets++
+				// ---- oracle, from the live children only ----
+				ch, known := live[c]
+				if getQuantityValue(e, res) != sumE || getQuantityValue(d, res) != sumD {
+					h.Fail("C02:scalemin-sums-drift", "recorded sums (%d,%d) != sums of the live children (%d,%d)",
+						getQuantityValue(e, res), getQuantityValue(d, res), sumE, sumD)
+				}
+				if !known || !ch.enable {
+					if ok {
+						h.Fail("C02:scalemin-scaled-unscalable", "child %d (known=%v) must not be scaled", c, known)
+					}
+					break
+				}
+				if !ok {
+					h.Fail("C02:scalemin-not-answered", "scalable child %d got no answer", c)
+					break
+				}
+				if total >= sumE+sumD {
+					if got != ch.min {
+						h.Fail("C02:scalemin-changed-although-fits", "minimums fit (total %d >= %d) but min %d became %d", total, sumE+sumD, ch.min, got)
+					}
+					h.Tag("scalemin:fits")
+				} else {
+					avail := total - sumD
+					tol := ch.min>>48 + 1 // float64 relative error, generous
+					if got < 0 || got > ch.min+tol {
+						h.Fail("C02:scalemin-above-original", "scaled min %d outside [0, original %d]", got, ch.min)
+					}
+					if avail <= 0 && got != 0 {
+						h.Fail("C02:scalemin-nothing-left", "nothing left for scalable children (avail %d) but scaled min is %d", avail, got)
+					}
+					if avail > 0 {
+						// all scalable siblings together: sum of the exact shares avail*m/E <= avail; float64 may be off by a relative 2^-48
+						sum := new(big.Int)
+						for cc, c2 := range live {
+							if !c2.enable {
+								continue
+							}
+							_, o2 := sm.getScaledMinQuota(mk(total), "p", fmt.Sprintf("q%d", cc))
+							q2 := o2[res]
+							sum.Add(sum, big.NewInt(getQuantityValue(q2, res)))
+						}
+						lim := new(big.Int).Add(big.NewInt(avail), big.NewInt(avail>>44+int64(len(live))+1))
+						if sum.Cmp(lim) > 0 {
+							h.Fail("C02:scalemin-sum-exceeds-left", "scaled minimums sum to %s > what is left %d", sum, avail)
+						}
+						// exact share within float tolerance
+						ex := new(big.Int).Mul(big.NewInt(avail), big.NewInt(ch.min))
+						ex.Div(ex, big.NewInt(sumE))
+						diff := new(big.Int).Sub(big.NewInt(got), ex)
+						diff.Abs(diff)
+						if diff.Cmp(big.NewInt(ex.Int64()>>44+1)) > 0 {
+							h.Fail("C02:scalemin-share-wrong", "scaled min %d, exact share %s (avail %d, min %d, scalable sum %d)", got, ex, avail, ch.min, sumE)
+						}
+						h.Tag("scalemin:scaled")
+						h.Nontrivial()
+					} else {
+						h.Tag("scalemin:nothing-left")
+					}
+				}
+			}
+		}
+		h.End()
+	}
+	h.Close("histories of 3-14 ScaleMinQuotaManager.update/remove/getScaledMinQuota calls on one parent with <=5 children (cpu in milli or memory; " +
+		"tiny/medium/2^30..2^52/GiB values; scalable and non-scalable children; totals that fit, exactly fit, fall in the scaling zone, or do not even cover the non-scalable minimums); " +
+		"non-trivial = at least one query in the scaling zone")
+}
+
 // ---- multi-level: GroupQuotaManager.RefreshRuntime ----
 
 func c02RL(cpu, mem int64) v1.ResourceList {
@@ -350,18 +491,23 @@ func TestVerifC02Mgr(t *testing.T) {
 			continue
 		}
 		gqm := NewGroupQuotaManagerForTest()
+		scaleMin := r.Chance(1, 3)
+		if scaleMin {
+			gqm.setScaleMinQuotaEnabled(true)
+			h.Tag("mgr:scale-min-on")
+		}
 		totalCPU, totalMem := int64(r.Range(0, 200))*1000, int64(r.Range(0, 400))<<30
 		gqm.UpdateClusterTotalResource(c02RL(totalCPU, totalMem))
 		// build a random 2-3 level tree
 		var all []*c02Q
 		byName := map[string]*c02Q{}
+		specs := map[string]*c02Spec{}
 		nextID := 1
 		mk := func(parent *c02Q, isParent bool) *c02Q {
 			q := &c02Q{id: nextID, name: fmt.Sprintf("q%03d", nextID), parent: extension.RootQuotaName, isParent: isParent}
 			nextID++
 			if parent != nil {
 				q.parent = parent.name
-				parent.children = append(parent.children, q)
 			}
 			all = append(all, q)
 			byName[q.name] = q
@@ -381,75 +527,168 @@ func TestVerifC02Mgr(t *testing.T) {
 				}
 			}
 		}
-		for _, q := range all {
-			maxC, maxM := int64(r.Range(1, 150))*1000, int64(r.Range(1, 300))<<30
-			minC, minM := int64(r.Range(0, 40))*1000, int64(r.Range(0, 80))<<30
-			if minC > maxC {
-				minC = maxC
-			}
-			if minM > maxM {
-				minM = maxM
-			}
-			eq := CreateQuota(q.name, q.parent, maxC/1000, maxM, minC/1000, minM, r.Chance(2, 3), q.isParent)
-			if r.Chance(1, 3) {
-				eq.Annotations[extension.AnnotationSharedWeight] = fmt.Sprintf("{\"cpu\":%d, \"memory\":\"%d\"}", r.Range(0, 20), int64(r.Range(0, 20))<<30)
+		apply := func(q *c02Q) {
+			sp := specs[q.name]
+			eq := CreateQuota(q.name, q.parent, sp.maxC, sp.maxM, sp.minC, sp.minM, sp.lend, q.isParent)
+			if sp.weight != "" {
+				eq.Annotations[extension.AnnotationSharedWeight] = sp.weight
 			}
 			if err := gqm.UpdateQuota(eq); err != nil {
 				t.Fatalf("UpdateQuota: %v", err)
 			}
 		}
-		phases := r.Range(1, 3)
+		for _, q := range all {
+			sp := &c02Spec{maxC: int64(r.Range(1, 150)), maxM: int64(r.Range(1, 300)) << 30, minC: int64(r.Range(0, 40)), minM: int64(r.Range(0, 80)) << 30, lend: r.Chance(2, 3)}
+			if sp.minC > sp.maxC {
+				sp.minC = sp.maxC
+			}
+			if sp.minM > sp.maxM {
+				sp.minM = sp.maxM
+			}
+			if r.Chance(1, 3) {
+				sp.weight = fmt.Sprintf("{\"cpu\":%d, \"memory\":\"%d\"}", r.Range(0, 20), int64(r.Range(0, 20))<<30)
+			}
+			specs[q.name] = sp
+			apply(q)
+		}
+		curReq := map[string][2]int64{}
+		phases := r.Range(1, 4)
 		for ph := 0; ph < phases; ph++ {
-			// (re)set leaf requests; later phases also move the cluster total: exercises the version stamps
+			// (re)set leaf requests with milli-granular CPU; later phases move the cluster total, nudge one
+			// dimension of one request by a sub-core amount, or move a quota under another parent
 			for _, q := range all {
-				if !q.isParent && r.Chance(3, 4) {
-					req := c02RL(int64(r.Range(0, 120))*1000, int64(r.Range(0, 250))<<30)
-					gqm.updateGroupDeltaRequestNoLock(q.name, req, req, 0)
+				if q.isParent {
+					continue
+				}
+				old := curReq[q.name]
+				nw := old
+				switch {
+				case ph == 0 || r.Chance(1, 3):
+					nw = [2]int64{int64(r.Range(0, 120000)), int64(r.Range(0, 250)) << 30}
+				case r.Chance(1, 2): // cpu only, by less than a core
+					nw[0] = old[0] + int64(r.Range(-900, 900))
+					if nw[0] < 0 {
+						nw[0] = 0
+					}
+				}
+				if nw != old {
+					delta := c02RL(nw[0]-old[0], nw[1]-old[1])
+					gqm.updateGroupDeltaRequestNoLock(q.name, delta, delta, 0)
+					curReq[q.name] = nw
 				}
 			}
 			if ph > 0 && r.Bool() {
 				gqm.UpdateClusterTotalResource(c02RL(int64(r.Range(-20, 40))*1000, int64(r.Range(-20, 40))<<30))
 			}
-			// refresh everything, parents before children, in a random sibling order
-			order := r.Perm(len(all))
-			sort.SliceStable(order, func(i, j int) bool { return depthOf(all[order[i]], byName) < depthOf(all[order[j]], byName) })
-			for _, i := range order {
-				gqm.RefreshRuntime(all[i].name)
+			if ph > 0 && r.Chance(1, 2) { // move a childless quota under another parent (or the root)
+				var cands []*c02Q
+				for _, q := range all {
+					hasKids := false
+					for _, o := range all {
+						if o.parent == q.name {
+							hasKids = true
+						}
+					}
+					if !hasKids {
+						cands = append(cands, q)
+					}
+				}
+				if len(cands) > 0 {
+					q := cands[r.Intn(len(cands))]
+					targets := []string{extension.RootQuotaName}
+					for _, o := range all {
+						if o.isParent && o.name != q.name {
+							targets = append(targets, o.name)
+						}
+					}
+					np := targets[r.Intn(len(targets))]
+					if np != q.parent {
+						q.parent = np
+						apply(q)
+						h.Tag("mgr:reparent")
+					}
+				}
 			}
-			// one block per calculator and dimension
+			// refresh everything, parents before children, in a random sibling order; twice, so that the scaled
+			// minimums of all siblings are in place before the runtimes are read
+			for pass := 0; pass < 2; pass++ {
+				order := r.Perm(len(all))
+				sort.SliceStable(order, func(i, j int) bool { return depthOf(all[order[i]], byName) < depthOf(all[order[j]], byName) })
+				for _, i := range order {
+					gqm.RefreshRuntime(all[i].name)
+				}
+			}
+			// one block per parent and dimension, INPUTS taken from the quota objects (not from the calculator's
+			// own nodes, which are cross-checked against them)
 			parents := []string{extension.RootQuotaName}
 			for _, q := range all {
-				if q.isParent && len(q.children) > 0 {
+				if q.isParent {
 					parents = append(parents, q.name)
 				}
 			}
 			for _, pn := range parents {
-				calc := gqm.runtimeQuotaCalculatorMap[pn]
-				if calc == nil {
+				var kids []*c02Q
+				for _, q := range all {
+					if q.parent == pn {
+						kids = append(kids, q)
+					}
+				}
+				if len(kids) == 0 {
 					continue
 				}
+				calc := gqm.runtimeQuotaCalculatorMap[pn]
 				for _, res := range []v1.ResourceName{v1.ResourceCPU, v1.ResourceMemory} {
-					qt := calc.quotaTree[res]
-					if qt == nil {
-						continue
-					}
-					tq := calc.totalResource[res]
-					total := getQuantityValue(tq, res)
-					if pn != extension.RootQuotaName {
+					var total int64
+					if pn == extension.RootQuotaName {
+						tq := gqm.totalResourceExceptSystemAndDefaultUsed[res]
+						total = getQuantityValue(tq, res)
+					} else {
 						pr := gqm.quotaInfoMap[pn].CalculateInfo.Runtime[res]
-						if getQuantityValue(pr, res) != total {
-							h.Fail("C02:tree-total-mismatch", "calculator %s %s total %d != parent's runtime %d", pn, res, total, getQuantityValue(pr, res))
-						}
+						total = getQuantityValue(pr, res)
 					}
 					var ns []*c02Node
-					for name, qn := range qt.quotaNodes {
-						q := byName[name]
-						if q == nil {
-							continue
+					var sumMinE int64
+					for _, q := range kids {
+						qi := gqm.quotaInfoMap[q.name]
+						lr := qi.getLimitRequestNoLock()[res]
+						w := qi.CalculateInfo.SharedWeight[res]
+						am := qi.CalculateInfo.AutoScaleMin[res]
+						gq := qi.CalculateInfo.Guaranteed[res]
+						rtq := qi.CalculateInfo.Runtime[res]
+						nd := &c02Node{name: q.id, w: getQuantityValue(w, res), req: getQuantityValue(lr, res), min: getQuantityValue(am, res),
+							guarantee: getQuantityValue(gq, res), lend: qi.AllowLentResource, rt: getQuantityValue(rtq, res)}
+						ns = append(ns, nd)
+						om := qi.CalculateInfo.Min[res]
+						sumMinE += getQuantityValue(om, res)
+						// NOTE: the calculator's own node may lag behind the quota object in ways that cannot change the
+						// result (a no-lend quota whose request was raised to its min keeps the old request in the node:
+						// both are <= min, so the runtime is min either way).  The property is about the RESULT, so the
+						// inputs come from the quota objects and only the runtimes are compared.
+						if calc != nil && calc.quotaTree[res] != nil {
+							if ok, qn := calc.quotaTree[res].find(q.name); ok && (qn.request != nd.req || qn.min != nd.min) {
+								h.Tag("mgr:calculator-node-lags")
+							}
 						}
-						rtq := gqm.quotaInfoMap[name].CalculateInfo.Runtime[res]
-						ns = append(ns, &c02Node{name: q.id, w: qn.sharedWeight, req: qn.request, min: qn.min, guarantee: qn.guarantee,
-							lend: qn.allowLentResource, rt: getQuantityValue(rtq, res)})
+					}
+					// scaled minimums: only when the children's minimums do not fit may a minimum differ from the declared one
+					for _, q := range kids {
+						qi := gqm.quotaInfoMap[q.name]
+						om, am := qi.CalculateInfo.Min[res], qi.CalculateInfo.AutoScaleMin[res]
+						o, a := getQuantityValue(om, res), getQuantityValue(am, res)
+						if !scaleMin || total >= sumMinE {
+							if a != o {
+								h.Fail("C02:mgr-scaled-min-wrong", "parent %s/%s: minimums fit (sum %d <= total %d, scaling on=%v) but child %s min %d became %d", pn, res, sumMinE, total, scaleMin, q.name, o, a)
+							}
+						} else if total > 0 && sumMinE > 0 {
+							ex := new(big.Int).Mul(big.NewInt(total), big.NewInt(o))
+							ex.Div(ex, big.NewInt(sumMinE))
+							d := new(big.Int).Sub(big.NewInt(a), ex)
+							d.Abs(d)
+							if d.Cmp(big.NewInt(ex.Int64()>>44+1)) > 0 {
+								h.Fail("C02:mgr-scaled-min-wrong", "parent %s/%s: total %d < sum of minimums %d: child %s min %d scaled to %d, exact share %s", pn, res, total, sumMinE, q.name, o, a, ex)
+							}
+							h.Tag("mgr:min-scaled")
+						}
 					}
 					if len(ns) >= 2 {
 						h.Nontrivial()
@@ -462,9 +701,16 @@ func TestVerifC02Mgr(t *testing.T) {
 		}
 		h.End()
 	}
-	h.Close("GroupQuotaManager with a random 2-3 level quota tree (1-4 top quotas, children, grandchildren; min<=max; random shared weights, lend flags), " +
-		"leaf requests set through delta propagation, 1-3 phases with request / cluster-total changes, RefreshRuntime on every quota top-down; " +
-		"one block per (parent calculator, dimension) built from the quotaNodes it holds; non-trivial = a level with >=2 siblings")
+	h.Close("GroupQuotaManager with a random 2-3 level quota tree (1-4 top quotas, children, grandchildren; min<=max; random shared weights, lend flags; min scaling on in 1/3), " +
+		"leaf requests with milli-granular CPU set through delta propagation, 1-4 phases with request changes (incl. sub-core cpu-only nudges), cluster-total changes and re-parenting, " +
+		"RefreshRuntime on every quota top-down (two passes); one block per (parent, dimension) whose inputs are read from the quota objects (not from the calculator's own nodes); " +
+		"non-trivial = a level with >=2 siblings")
+}
+
+type c02Spec struct {
+	maxC, maxM, minC, minM int64
+	lend                   bool
+	weight                 string
 }
 
 func depthOf(q *c02Q, byName map[string]*c02Q) int {
